@@ -5,6 +5,7 @@ import Proofs.ServiceStop
 import Proofs.ServiceSurvive
 import Proofs.ServiceSubs
 import Proofs.ServiceCancel
+import Proofs.SessionFresh
 /-
   Props/C17.lean — property C17: the service survives any failure sequence — it reconnects,
   re-establishes exactly the subscriptions resulting from the subscribe / unsubscribe calls,
@@ -43,9 +44,13 @@ theorem resubscribe_exact {cfg : Cfg} {s : SState} (h : Reachable cfg s) :
   rw [mem_resubList]
   exact mem_resub_iff (subs_refine h) sub
 
-/-- after a successful connect the first thing written is that request … -/
+/-- after a successful connect the first thing written is that request …
+    (`s.nextID` is `Client.nextID`: the next packet id no stored outgoing packet uses; `hid`: there is
+    one — 0 stands for `ErrPacketIDsExhausted` —, which holds whenever the session stores fewer than
+    65535 packets, `resubscribe_request_of_lt`) -/
 theorem resubscribe_request {s : SState} {c : Client} {sp : Bool} (hph : s.phase = .online sp) (hcl : s.cl = some c)
-    (hre : s.cfg.resubAll = true) (hne : s.resubList ≠ []) (hst : c.st ≠ .dead) (hok : c.sendOk = true) :
+    (hre : s.cfg.resubAll = true) (hne : s.resubList ≠ []) (hst : c.st ≠ .dead) (hok : c.sendOk = true)
+    (hid : s.nextID.1 ≠ 0) :
     ∃ s', step s (.sup .run) = some (s', [.online sp, .sent c.conn (.subscribe s.resubList s.nextID.1)])
       ∧ s'.phase = .resubWait s.nextID.1 := by
   refine ⟨((s.nextID.2.put s.nextID.1 { resub := true }).setResub none).wait (.resubWait s.nextID.1), ?_, ?_⟩
@@ -54,8 +59,18 @@ theorem resubscribe_request {s : SState} {c : Client} {sp : Bool} (hph : s.phase
     unfold supOnline
     have h1 : s.resubList.isEmpty = false := by cases hl : s.resubList <;> simp_all
     have h2 : (c.st == CState.dead) = false := by simpa using hst
-    simp [hre, h1, h2, hok]
+    have h3 : (s.nextID.1 == 0) = false := by simpa using hid
+    simp [hre, h1, h2, h3, hok]
   · simp
+
+/-- … for every session that stores fewer than 65535 outgoing packets (pigeonhole over one cycle of
+    the id counter, Proofs/SessionFresh) -/
+theorem resubscribe_request_of_lt {s : SState} {c : Client} {sp : Bool} (hph : s.phase = .online sp) (hcl : s.cl = some c)
+    (hre : s.cfg.resubAll = true) (hne : s.resubList ≠ []) (hst : c.st ≠ .dead) (hok : c.sendOk = true)
+    (hlt : s.sess.outgoing.entries.length < 65535) :
+    ∃ s', step s (.sup .run) = some (s', [.online sp, .sent c.conn (.subscribe s.resubList s.nextID.1)])
+      ∧ s'.phase = .resubWait s.nextID.1 :=
+  resubscribe_request hph hcl hre hne hst hok (MemorySession.freshID_ne_zero_of_lt s.sess hlt)
 
 /-- … and nothing is sent when there is nothing to subscribe to -/
 theorem resubscribe_skipped {s : SState} {c : Client} {sp : Bool} (hph : s.phase = .online sp) (hcl : s.cl = some c)
